@@ -77,6 +77,11 @@ def items(b, tag):
                                                                     b.expr_stmt(b.call(b.member(v('t'), 'approve'), [v('o'), b.bin('Multiply', b.bin('Divide', v('a'), n(2)), n(4))]))]))),
         'struct': lambda: b.supart(b.struct('T' + tag, [(b.ty('Uint', 8), 'a'), (b.ty('Uint', 256), 'bq'), (b.ty('Uint', 8), 'c')])),
         'empty_contract': lambda: fam.contract_with(b, [], name='Empty' + tag),
+        # a contract that NAMES the other item's contract as its base (it mentions none of its state variables): what the base declares
+        # must not enter the verdict on the derived contract, whichever of the two stands first
+        'contract_base_small': lambda: fam.contract_with(b, [b.state_var(b.ty('Uint', 128), 'r' + tag)], name='Base' + tag),
+        'contract_derived_of_other_base': lambda: fam.contract_with(b, [b.state_var(b.ty('Uint', 256), x), b.state_var(b.ty('Uint', 128), y)], name='Derived' + tag,
+                                                                   bases=[('Base' + ('B' if tag == 'A' else 'A'), None)]),
         # the same function NAME in both items with a different protection status (a verdict cached per name would leak across items)
         'contract_kill_guarded': lambda: fam.contract_with(b, [b.state_var(b.ty('Address'), x), b.function('Function', 'shutdown', [], [b.fattr('visibility', 'external')], b.block([
             b.expr_stmt(b.call(v('require'), [b.bin('Equal', b.member(v('msg'), 'sender'), v(x))])), b.expr_stmt(b.call(v('selfdestruct'), [b.call(b.ty('Payable'), [v(x)])]))]))], name='Vault' + tag),
